@@ -98,6 +98,32 @@ Definition writes_ok (bs : list body) : bool := forallb body_ok bs.
 Definition failures (bs : list body) : list (string * nat) :=
   flat_map (fun b => match analyse (b_code b) (b_tainted b) with Ok _ _ _ => [] | Bad l => [(b_name b, l)] end) bs.
 
+(* syntactic helpers for table facts: does a body mention a name at all; the roots of its write sites *)
+Definition rhs_mentions (n : name) (r : rhs) : bool :=
+  match r with
+  | RAlias srcs | RSetupW _ srcs | RSetupKw _ srcs => mem n srcs
+  | _ => false
+  end.
+Fixpoint mentions (n : name) (s : stmt) : bool :=
+  match s with
+  | SSeq a b | SIf a b => mentions n a || mentions n b
+  | SBind m r => String.eqb n m || rhs_mentions n r
+  | SWrite m _ => String.eqb n m
+  | SLoop b => mentions n b
+  | _ => false
+  end.
+Fixpoint write_roots (s : stmt) : list name :=
+  match s with
+  | SSeq a b | SIf a b => write_roots a ++ write_roots b
+  | SWrite m _ => [m]
+  | SLoop b => write_roots b
+  | _ => []
+  end.
+(* a persistent attribute that may hold a caller-owned buffer is handled soundly by a body when the body
+   either never mentions it or treats it as caller-owned on entry, and no write site has it as its root *)
+Definition attr_guarded (n : name) (b : body) : bool :=
+  implb (mentions n (b_code b)) (mem n (b_tainted b)) && negb (mem n (write_roots (b_code b))).
+
 (* ---------------------------------------------------------------- concrete semantics *)
 Section Sem.
   Variable V : Type.                       (* what a write stores (bytes, a dict entry, ...) *)
